@@ -17,7 +17,7 @@ def run(ctx):
         raise BrokenObligation("translator testcase_extract.py", r.stdout + r.stderr)
     ctx.cov["translator"] = r.stdout.strip()
     ctx.also_props = ("C20",)
-    ctx.prove()
+    ctx.prove(extra_modules=["GMGProofs.Props.C20s"])
     if ctx.tier == "quick":
         h = ctx.build_harness("h_solver")
         ctx.pipe([h, "options", "250"], "options", label="option-tuples")
